@@ -13,7 +13,8 @@ LEVEL = "exploration"
 RULE = ("inputs = (Sid, overlay, route): Sids = per type one concrete, one search ('*' in two positions), plus forced-type "
         "search Sids; overlay = every ordered tuple of 1..k pairs on distinct keys from the menu {existing key x (other valid, "
         "invalid, '*', '>', ~valid, ~invalid, empty), deeper keys x (valid, ~valid), foreign key, unknown key}; routes = "
-        "Sid(s?q), get_with(query=q), get_with(**kw) incl. None for existing/absent keys and the key=/value= form. "
+        "Sid(s?q), get_with(query=q), get_with(**kw) incl. None for existing/absent keys and the key=/value= form; plus every "
+        "1-pair (and 2-pair with an optional value) query applied first to another Sid of the basetype (shortest / longest), then to the Sid. "
         "distinct = distinct (uri, query) ; non-trivial = overlay changes at least one field or is refused.")
 ASSUMPTIONS = ["query values contain no URL metacharacters; the only control character is a url-encoded trailing newline", "blank values (k=) are dropped by the query "
                "syntax (urllib parse_qsl) in both model and implementation"]
@@ -160,6 +161,18 @@ def cases(ref, k):
                     yield ("q", s, forced, q + "&")
                 if not any(v.startswith("~") or "%" in v for _, v in combo):
                     yield ("kw", s, forced, dict(combo))
+        # the same query text applied to another Sid first (one that owns other keys), from cold caches: the overlay is a
+        # function of (sid, query), not of who was asked before
+        partners = [(s2, f2) for s2, f2 in sids(ref) if (s2, f2) != (s, forced) and ref.basetype(f2 or ref.natural(s2)[0]) == ref.basetype(t)]
+        partners = sorted(partners, key=lambda p: len(p[0].split("/")))
+        partners = [p for i, p in enumerate(partners) if i in (0, len(partners) - 1)]
+        for r in range(1, min(k, 2) + 1):
+            for combo in itertools.permutations(menu, r):
+                if len({kk for kk, _ in combo}) != r or (r == 2 and not any(v.startswith("~") for _, v in combo)):
+                    continue
+                q = "&".join(f"{kk}={vv}" for kk, vv in combo)
+                for s2, f2 in partners:
+                    yield ("qq", s, forced, [q, s2, f2])
         # None overlays
         chain = list(d) + [kk for kk in ref.key_types.get(ref.basetype(t), []) if kk not in d][:1] + ["bogus"]
         for kk in chain:
@@ -176,6 +189,22 @@ def cases(ref, k):
 def check_case(ref, case):
     from spil import Sid
     kind, s, forced, arg = case
+    if kind == "qq":
+        from mc import env
+        q, s2, f2 = arg
+        env.reset()
+        for route in ("string", "get_with"):
+            try:
+                check_query(ref, Sid, s2, f2, q, route)
+            except Exception:  # noqa  (the partner's own answer is judged by its own 'q' case)
+                pass
+        out, cls = [], []
+        for route in ("string", "get_with"):
+            o, c = check_query(ref, Sid, s, forced, q, route)
+            out += [dict(v, signature=v["signature"] + "/after-the-same-query-on-another-sid") for v in o]
+            cls.append(c)
+        env.reset()
+        return out, "query-after-other:" + "/".join(cls)
     if kind == "q":
         out = []
         cls = []
@@ -198,6 +227,8 @@ def run_shard(sh):
     rec = Recorder(sh["index"], sh["count"], sh["seed"])
     k = 3 if sh["tier"] == "thorough" else (1 if sh["tier"] == "c20" else 2)
     import json
+    from mc import env
+    hist = []
     for case in cases(ref, k):
         key = json.dumps(case, sort_keys=True)
         if not rec.mine(key):
@@ -206,16 +237,42 @@ def run_shard(sh):
             # thorough: triples only on Sids of <= 5 fields (the longer ones have ~60 pairs: 2*10^5 triples each)
             rec.count("triple-skipped-on-long-sid")
             continue
+        if len(hist) >= HIST or case[0] == "qq":
+            env.reset()
+            hist = []
         viols, cls = check_case(ref, list(case))
+        if viols and hist:
+            # is it this input, or what was asked before it? decide from cold caches; a violation that needs the calls
+            # made since the last reset is reported with exactly those calls as its (replayable) history
+            env.reset()
+            v2, _ = check_case(ref, list(case))
+            cold = {v["signature"] for v in v2}
+            for v in viols:
+                if v["signature"] not in cold:
+                    rec.violation(v["signature"] + "/depends-on-earlier-calls", "history", [list(c) for c in hist] + [list(case)], v["observed"], v["expected"])
+            viols = v2
+            hist = []
+        hist.append(case)
         rec.case(cls, True, sample=list(case))
         for v in viols:
             rec.violation(v["signature"], "overlay", list(case), v["observed"], v["expected"])
     return rec.result()
 
 
+HIST = 200
+
+
 def replay_case(kind, case):
     from mc.ref.model import Conf
-    return check_case(Conf(), case)[0]
+    from mc import env
+    ref = Conf()
+    if kind == "history":
+        env.reset()
+        for c in case[:-1]:
+            check_case(ref, c)
+        cold_first = check_case(ref, case[-1])[0]
+        return [dict(v, signature=v["signature"] + "/depends-on-earlier-calls") for v in cold_first]
+    return check_case(ref, case)[0]
 
 
 def coverage(m, tier, seed):
